@@ -13,4 +13,5 @@ let entries : (string * (byte list -> byte list)) list = [
   "machine_model", machine_model_line;
   "machine_graph", machine_graph_line;
   "machine_spec", machine_spec_line;
+  "example_model", example_model_line;
 ]
